@@ -70,16 +70,18 @@ func (l *LineFilterPlanner) Process(ctx *shared.PlannerContext) (sql.ISelect, er
 	return req.AndWhere(clause), nil
 }
 
+// likeEscaper makes a text match itself inside a LIKE pattern: \, % and _ are the LIKE
+// metacharacters.
+var likeEscaper = strings.NewReplacer(`\`, `\\`, "%", `\%`, "_", `\_`)
+
 func (l *LineFilterPlanner) doLike(likeOp string) (sql.SQLCondition, error) {
-	enqVal, err := l.enquoteStr(l.Val)
+	// escape for LIKE first, then quote the whole pattern as one SQL string literal
+	enqVal, err := l.enquoteStr("%" + likeEscaper.Replace(l.Val) + "%")
 	if err != nil {
 		return nil, err
 	}
-	enqVal = strings.Trim(enqVal, `'`)
-	enqVal = strings.Replace(enqVal, "%", "\\%", -1)
-	enqVal = strings.Replace(enqVal, "_", "\\_", -1)
 	return sql.Eq(
-		sql.NewRawObject(fmt.Sprintf("%s(samples.string, '%%%s%%')", likeOp, enqVal)), sql.NewIntVal(1),
+		sql.NewRawObject(fmt.Sprintf("%s(samples.string, %s)", likeOp, enqVal)), sql.NewIntVal(1),
 	), nil
 }
 
